@@ -29,6 +29,20 @@ ASSUMPTIONS = ["float control / correlation times are kept >= 1e-3 dt away "
                "from rounding half-points (the tie itself is ill-posed)"]
 
 
+def whole_time(start, dt, nsteps):
+    """A whole-number time inside the window [start, start + nsteps dt] that
+    is not within a tenth of a step of a half-way point (the step it belongs
+    to is unambiguous); None if there is none."""
+    import math
+    t = float(math.ceil(start + 0.5 * dt))
+    while t <= start + nsteps * dt + 1e-9:
+        k = (t - start) / dt
+        if abs((k % 1.0) - 0.5) > 0.1 and round(k) <= nsteps:
+            return t
+        t += 1.0
+    return None
+
+
 def required_cells(tier):
     return {"method:tempo": 3, "method:pt": 3, "method:meanfield": 2,
             "method:meanfield_pt": 2, "method:corr": 3, "tau:nonmultiple": 5,
@@ -36,7 +50,8 @@ def required_cells(tier):
             "tau:far": 6, "end:on-grid": 10,
             "system-used-on-other-window-before": 10,
             "rate-switched-on": 3, "guessed-parameters": 4,
-            "float-controls:near-coincident": 4}
+            "float-controls:near-coincident": 4,
+            "float-controls:numpy-scalar-whole-number": 4}
 
 
 def cases(tier, seed):
@@ -287,6 +302,9 @@ def run_case(case):
             sups2 = [scen.random_superop(rng, dd, "unitary") for dd in dims]
             cells.append("float-controls")
             cells.append("float-controls:near-coincident")
+            wt = whole_time(start, dt, nsteps)
+            if wt is not None:
+                cells.append("float-controls:numpy-scalar-whole-number")
 
             def ctrls(s):
                 out = []
@@ -300,6 +318,10 @@ def run_case(case):
                                  post=is_post)
                     c.add_single(float(s + (ks + off3) * dt), sup,
                                  post=is_post)
+                    if wt is not None:
+                        # a time given as a numpy scalar that happens to be
+                        # a whole number in the unshifted frame
+                        c.add_single(np.float64(wt + (s - start)), sup2)
                     out.append(c)
                 return out
             da = oqupy.compute_dynamics_with_field(
@@ -371,9 +393,17 @@ def run_case(case):
         sup = scen.random_superop(rng, d, "unitary")
         sup2 = scen.random_superop(rng, d, "unitary")
         cells.append("float-controls:near-coincident")
+        wt = whole_time(start, dt, nsteps)
+        if wt is not None:
+            cells.append("float-controls:numpy-scalar-whole-number")
         outs = []
         for sysd, s in ((sa, start), (sb, start + tau)):
             c = oqupy.Control(d)
+            if wt is not None:
+                # a time given as a numpy scalar that happens to be a whole
+                # number in the unshifted frame
+                c.add_single(np.float64(wt + (s - start)), sup2,
+                             post=bool(i % 4 == 1))
             c.add_single(float(s + (ks + off3 + 2e-4) * dt), sup2,
                          post=bool(i % 2))
             c.add_single(float(s + (ks + off3) * dt), sup,
